@@ -106,6 +106,7 @@ def cases(tier, seed, flavour):
                     yield {'part': 'sparse', 'tc': tc, 'm': m, 'n': n, 'lo': lo, 'hi': min(tot, lo + chunk), 'seed': s}
     for tc in 'dz':
         yield {'part': 'sparse-inplace', 'tc': tc}
+        yield {'part': 'sparse-huge', 'tc': tc}
     yield {'part': 'imp-sparse'}
     for code in ARRAY_CODES:
         yield {'part': 'imp-array', 'code': code}
@@ -315,6 +316,8 @@ def run(case):
             _run_sparse(case, c)
         elif part == 'sparse-inplace':
             _run_sparse_inplace(case, c)
+        elif part == 'sparse-huge':
+            _run_sparse_huge(case, c)
         elif part == 'imp-sparse':
             _run_imp_sparse(case, c)
         elif part == 'imp-array':
@@ -873,6 +876,57 @@ def _run_sparse(case, c):
                     c.bad('C20:independent:%s:%s:source-follows-copy' % (name, T),
                           'writing the result of %s changed S' % name, sub)
                     s_img = simg(S)
+    c.asan(T)
+
+
+HUGE_ROWS = [0, 3, 7, 2 ** 31 - 1, 2 ** 31, 2 ** 31 + 8, 2 ** 32 + 5, 2 ** 33 - 1]
+
+
+def _run_sparse_huge(case, c):
+    """sparse matrices with more than 2^31 rows and three stored entries per column (every 3-subset of HUGE_ROWS, given in
+    every order): the compressed-column form keeps the row indices sorted, and pickle / copy / deepcopy / the triplet
+    constructor reproduce I, J, V and the size exactly.  (Storage is proportional to the number of entries.)"""
+    import pickle, copy, itertools
+    from cvxopt import spmatrix
+    tc = case['tc']
+    m = 2 ** 33
+    T = 'sparse-huge-' + tc
+    val = (lambda k: float(k + 1)) if tc == 'd' else (lambda k: complex(k + 1, -k))
+    for rows in itertools.combinations(HUGE_ROWS, 3):
+        for perm in itertools.permutations(range(3)):
+            for ncol in (1, 2):
+                I = [rows[k] for k in perm] * ncol
+                J = [j for j in range(ncol) for _ in range(3)]
+                V = [val(rows.index(r) + 3 * j) for r, j in zip(I, J)]
+                sub = {'tc': tc, 'size': [m, ncol], 'I': I, 'J': J}
+                want = sorted(zip(J, I, V))
+                c.ev(True)
+                try:
+                    S = spmatrix(V, I, J, (m, ncol), tc)
+                except Exception as e:
+                    c.bad('C20:construct:%s:exception:%s' % (T, type(e).__name__), 'spmatrix(V, I, J, (2^33, %d)) raised %r' % (ncol, e), sub)
+                    continue
+
+                def img(U):
+                    return sorted(zip(list(U.J), list(U.I), list(U.V)))
+
+                def ordered(U):
+                    return [(j, i) for j, i in zip(list(U.J), list(U.I))] == sorted((j, i) for j, i in zip(list(U.J), list(U.I)))
+                if tuple(S.size) != (m, ncol) or img(S) != want or not ordered(S):
+                    c.bad('C20:construct:%s:triplets-differ' % T, 'spmatrix from triplets: I=%r J=%r V=%r, expected column-wise ascending %r'
+                          % (list(S.I), list(S.J), list(S.V), want), sub)
+                    continue
+                for k in range(3):
+                    if S[I[k], 0] != V[k]:
+                        c.bad('C20:construct:%s:lookup' % T, 'S[%d, 0] = %r, stored %r' % (I[k], S[I[k], 0], V[k]), sub)
+                copies = [('pickle%d' % p, pickle.loads(pickle.dumps(S, p))) for p in (0, 2, 5)] + \
+                         [('copy', copy.copy(S)), ('deepcopy', copy.deepcopy(S)), ('+x', +S)]
+                for name, U in copies:
+                    c.ev(True)
+                    if tuple(U.size) != (m, ncol) or U.typecode != tc or img(U) != want or not ordered(U) \
+                            or [list(U.I), list(U.J), list(U.V)] != [list(S.I), list(S.J), list(S.V)]:
+                        c.bad('C20:%s:%s:triplets-differ' % (name.rstrip('0123456789'), T),
+                              '%s: I=%r J=%r V=%r, source I=%r J=%r V=%r' % (name, list(U.I), list(U.J), list(U.V), list(S.I), list(S.J), list(S.V)), sub)
     c.asan(T)
 
 
